@@ -91,7 +91,7 @@ CHECKS.update({
     "C19": dict(level="other",
         text="Mixed: for every detector proved in hits-form (unit det_expr) composition over top-level items follows from the proved lemma lemma_hits_concat (hits distributes over concatenation) together with all_nodes(file) = [file] + concatenation of all_nodes(item) (generated spec); all 28 non-SafeMath detectors are additionally checked whole-file vs. all-but-one-item-blanked on ordered pairs of 17 item kinds and seeded triples/quadruples (bounded).",
         design="§9 C19",
-        note="Trusted as for C05. The bounded part is bounded.",
+        note="Trusted as for C05. The bounded part is bounded. THREE KNOWN FINDINGS (known_findings.json, DESIGN §12): constant_variables, immutable_variables and sstore identify state variables by name over the whole file, so same-named variables of unrelated contracts interfere; the check prints KNOWN-FINDING lines for exactly the listed (detector, program) keys and reports every other interference.",
         technique="Verus lemma over the proved detector contracts + bounded relational check on the real code"),
     "C18": bounded("Frame contract of a run of the real binary ('modifies exactly ./solstat_report.md, by replacement') checked by recursive before/after snapshots over trees x working directories x previous-report states, two runs in a row.", "the file system or process effects", "§9 C18"),
 })
